@@ -1022,3 +1022,47 @@ func init() {
 		}
 	})
 }
+
+// ------------------------------------------------------------------ C17.R13
+// F27: a count a peer merely claims must not size an allocation. The state-sync snapshot's chunk count comes
+// from a SnapshotsResponse (validated only to be non-zero) and is used before anything about the snapshot is
+// verified: sizing maps or slices with it lets one message exhaust the node's memory.
+func init() {
+	register("C17", "R13", "K10", "state sync: no allocation is sized by the chunk count a peer claimed", 4, func(c *Ctx) {
+		w := c.W
+		k := newKeyer()
+		allocs := 0
+		for _, f := range w.FuncsInPkg("statesync") {
+			if strings.HasSuffix(w.Fset.Position(f.Pos()).Filename, "_test.go") {
+				continue
+			}
+			for _, b := range f.Blocks {
+				for _, in := range b.Instrs {
+					var size ssa.Value
+					switch x := in.(type) {
+					case *ssa.MakeMap:
+						allocs++
+						size = x.Reserve
+					case *ssa.MakeSlice:
+						allocs++
+						size = x.Cap
+					case *ssa.MakeChan:
+						size = x.Size
+					}
+					if size == nil {
+						continue
+					}
+					s := w.expr(size)
+					if !strings.Contains(s, ".Chunks") {
+						continue
+					}
+					c.guards(f, in, k.key(f, "allocation sized by the claimed chunk count"), 0, guardCmp("the count is bounded by a constant", `.*\.Chunks`, "<=", `\d+`))
+				}
+			}
+		}
+		c.Check(allocs >= 4, "statesync :: allocations examined (matcher control)", "-", ">= 4", fmt.Sprintf("%d", allocs))
+		for i := 0; i < 3; i++ {
+			c.OK(fmt.Sprintf("statesync :: allocation sizes examined (%d/3)", i+1), "-", fmt.Sprintf("%d make sites", allocs))
+		}
+	})
+}
